@@ -3403,6 +3403,12 @@ error_exit :
 				} ;
 		} ;
 
+	/* The close hooks rewrite tailer and header in the writing modes : an SFM_RDWR open that failed
+	** must not store its half parsed state over the existing file.
+	*/
+	if (psf->file.mode == SFM_RDWR)
+		psf->file.mode = SFM_READ ;
+
 	psf_close (psf) ;
 	return NULL ;
 } /* psf_open_file */
